@@ -4,6 +4,7 @@ package main
 
 import (
 	"fmt"
+	"go/types"
 	"strings"
 
 	"golang.org/x/tools/go/ssa"
@@ -158,17 +159,30 @@ func ruleValidate(rulePrefix string) func(p *Prog, r *Result) {
 		pr := newPSRule(p, r, rulePrefix+".validate", "bkl.validate", PSOpts{})
 		obj := pT("obj")
 		objP := mParam("obj")
-		mapIter := selectPaths(pr.paths, func(pa *Path) bool {
+		// a key is a string: handing it straight to the function validate dispatches strings to is the same check
+		strValidators := stringCaseCallees(p, pr.fn)
+		mapPaths := pr.paths
+		if len(strValidators) > 0 {
+			mapPaths = p.Paths(pr.fn, PSOpts{NoInline: strValidators})
+		}
+		mapIter := selectPaths(mapPaths, func(pa *Path) bool {
 			return guardPol(pa, "kind", objP, "map") == 1 && guardPol(pa, "itermore", mOp("range", objP), nil) == 1
 		})
 		pr.all("map: every key and every value is validated", mapIter, "validate(k) and validate(v) for every entry; the loop is left only with an error", func(pa *Path) (bool, string) {
 			hk := hasCallEffect(pa, "bkl.validate", mKeyOf(objP))
+			kerr := guardPol(pa, "err", mCall("bkl.validate", mKeyOf(objP)), nil)
+			for sv := range strValidators {
+				if !hk && hasCallEffect(pa, sv, mKeyOf(objP)) {
+					hk = true
+					kerr = guardPol(pa, "err", mCall(sv, mKeyOf(objP)), nil)
+				}
+			}
 			hv := hasCallEffect(pa, "bkl.validate", mElemOf(objP))
 			if pa.End == "iter" {
 				if !hk || !hv {
 					return false, fmt.Sprintf("an entry passes with key validated=%v value validated=%v", hk, hv)
 				}
-				if guardPol(pa, "err", mCall("bkl.validate", mKeyOf(objP)), nil) != -1 || guardPol(pa, "err", mCall("bkl.validate", mElemOf(objP)), nil) != -1 {
+				if kerr != -1 || guardPol(pa, "err", mCall("bkl.validate", mElemOf(objP)), nil) != -1 {
 					return false, "the loop continues without checking both validation results"
 				}
 				return true, ""
@@ -708,4 +722,41 @@ func ruleOutputFresh(p *Prog, r *Result) {
 			"the output pipeline writes into the tree it was handed ("+why+"): a selected subtree is also part of its selected parent, so filtering one rewrites the other (duplicated or missing entries in the output)")
 	}
 	r.Floor("C11.fresh", "output pipeline stages", n, 4)
+}
+
+// stringCaseCallees: the in-repo functions that fn (a type-dispatching function over a tree value) hands its
+// parameter to once it is known to be a string: calling one of them on a string is what fn itself would do.
+func stringCaseCallees(p *Prog, fn *ssa.Function) map[string]bool {
+	out := map[string]bool{}
+	if fn == nil || len(fn.Params) != 1 {
+		return out
+	}
+	fromParam := func(v ssa.Value) bool {
+		for i := 0; i < 4; i++ {
+			switch x := v.(type) {
+			case *ssa.Extract:
+				v = x.Tuple
+			case *ssa.TypeAssert:
+				bt, ok := x.AssertedType.Underlying().(*types.Basic)
+				return ok && bt.Kind() == types.String && x.X == ssa.Value(fn.Params[0])
+			default:
+				return false
+			}
+		}
+		return false
+	}
+	for _, b := range fn.Blocks {
+		for _, in := range b.Instrs {
+			c, ok := in.(*ssa.Call)
+			if !ok {
+				continue
+			}
+			sc := c.Common().StaticCallee()
+			if sc == nil || !p.InRepo(sc) || sc == fn || len(c.Common().Args) != 1 || !fromParam(c.Common().Args[0]) {
+				continue
+			}
+			out[p.FuncName(sc)] = true
+		}
+	}
+	return out
 }
